@@ -162,8 +162,8 @@ def make_G(k, thr, special):
         out = []
         for l in range(k):
             g = v[l % len(v)] - thr[l]
-            if special and g == 1.0:
-                g = math.nan
+            if special and (g == 1.0 or (l >= 1 and int(abs(v[0]) * 16) % 5 == 0)):
+                g = math.nan       # also: NaN in a later position next to finite values (a reduction with max/min skips it)
             out.append(g)
         return out
     return G
